@@ -84,7 +84,7 @@ fn generate(rng: &mut Rng) -> ConnScenario {
         strategy: Script::always(Some(0), StratRes::First),
         ..Default::default()
     };
-    ConnScenario {
+    let mut sc = ConnScenario {
         seed: rng.next_u64(),
         cfg: ConnCfg { secret, expiry: None, max_frame: None, client_addr },
         wall,
@@ -92,7 +92,9 @@ fn generate(rng: &mut Rng) -> ConnScenario {
         client,
         wplan: vec![],
         cap_ns: secs(600),
-    }
+    };
+    zero_time_noise(rng, &mut sc);
+    sc
 }
 
 pub fn check(sc: &ConnScenario, out: &ConnOutcome, rep: &mut RunReport) {
@@ -248,7 +250,7 @@ impl Check for C01 {
         generate(rng)
     }
     fn execute(&self, sc: &ConnScenario) -> RunReport {
-        if !conn_domain_ok(sc) || !matches!(sc.client.intent, 1..=3) || sc.client.script.is_some() || !sc.client.mutations.is_empty() {
+        if !conn_domain_ok(sc) || !matches!(sc.client.intent, 1..=3) || sc.client.script.is_some() || !sc.client.mutations.is_empty() || !transport_is_zero_time(sc) {
             return RunReport::default();
         }
         let out = run_conn(sc);
